@@ -124,6 +124,8 @@ impl BranchUpdater {
         // in practice; bulk splits are rare.
 
         if self.ops_tracker.body_size() > BRANCH_BULK_SPLIT_THRESHOLD {
+            #[cfg(nomt_verif)]
+            crate::verif::probe("beatree.branch_bulk_split");
             self.try_split(new_branches, BRANCH_BULK_SPLIT_TARGET)?;
         }
 
@@ -147,6 +149,8 @@ impl BranchUpdater {
             self.ops_tracker.prepare_merge_ops(self.base.as_ref());
 
             // UNWRAP: protected above.
+            #[cfg(nomt_verif)]
+            crate::verif::probe("beatree.branch_merge");
             Ok(DigestResult::NeedsMerge(self.cutoff.unwrap()))
         }
     }
@@ -455,6 +459,8 @@ impl BranchGauge {
     }
 
     pub fn stop_prefix_compression(&mut self) {
+        #[cfg(nomt_verif)]
+        crate::verif::probe("beatree.stop_prefix_compression");
         assert!(self.prefix_compressed.is_none());
         self.prefix_compressed = Some(self.n);
     }
